@@ -511,6 +511,9 @@ var fixedPrograms = []struct {
 	{"slice-concat-equal", "package main\n\nfunc main(a, b []byte) ([]byte, int) {\n\tc := a + b\n\treturn c, len(c)\n}\n", [][]int{{16}, {16}}, []string{"0x0102", "0xfffe"}, []string{"0x0304", "0x0001"}},
 	{"struct-result", "package main\n\ntype P struct {\n\tX uint8\n\tY int16\n}\n\nfunc main(a, b uint8) (P, uint8) {\n\tvar p P\n\tp.X = a + b\n\tp.Y = int16(a) - int16(b)\n\treturn p, a ^ b\n}\n", nil, []string{"200", "7"}, []string{"77", "255"}},
 	{"nested-array-result", "package main\n\nfunc main(a, b uint8) [2][2]uint8 {\n\tvar r [2][2]uint8\n\tr[0][0] = a\n\tr[0][1] = b\n\tr[1][0] = a + b\n\tr[1][1] = a ^ b\n\treturn r\n}\n", nil, []string{"200", "7"}, []string{"77", "255"}},
+	{"widemul-1bit-recycled-ids", "package main\n\nfunc main(a, b uint2) (uint2, uint2) {\n\tt := a + b\n\tu := t + a\n\tx := uint1(u)\n\ty := uint1(b)\n\tp := wideMul(x, y)\n\treturn p, u\n}\n", nil, []string{"2", "3", "1", "3"}, []string{"1", "2", "3", "3"}},
+	{"widemul-1bit-first", "package main\n\nfunc main(a, b uint1) (uint2, uint1) {\n\tp := wideMul(a, b)\n\treturn p, a ^ b\n}\n", nil, []string{"1", "1", "0"}, []string{"1", "0", "1"}},
+	{"widemul-3bit-recycled-ids", "package main\n\nfunc main(a, b uint6) (uint6, uint6) {\n\tt := a + b\n\tu := t + a\n\tx := uint3(u)\n\ty := uint3(b)\n\tp := wideMul(x, y)\n\treturn p, u\n}\n", nil, []string{"63", "42", "7"}, []string{"63", "21", "7"}},
 	{"loop", "package main\n\nfunc main(a, b uint8) uint8 {\n\tvar sum uint8\n\tfor i := 0; i < 4; i++ {\n\t\tt := (a >> i) & 1\n\t\tsum = sum + t*b\n\t}\n\treturn sum\n}\n", nil, []string{"13", "255"}, []string{"7", "3"}},
 }
 
